@@ -38,7 +38,7 @@ func c11Open(engine, dir string) (bleve.Index, error) {
 	case "scorch-disk-paced":
 		// the persister paces itself against the merger once the directory holds a few files (default: 1000)
 		return bleve.NewUsing(filepath.Join(dir, "i"), bleve.NewIndexMapping(), scorch.Name, scorch.Name, map[string]interface{}{
-			"scorchMergePlanOptions":  small,
+			"scorchMergePlanOptions": small,
 			"scorchPersisterOptions": map[string]interface{}{"PersisterNapTimeMSec": 2, "PersisterNapUnderNumFiles": 4},
 		})
 	case "scorch-mem":
